@@ -5,7 +5,7 @@ package main
 // family "pres": C11 — field presence follows the declared presence discipline.
 //
 // C lines (model: coq/theories/Msg/PresenceModel.v via ocaml/fam_pres.ml):
-//   haspres <label> <syn> <lbl> <oneof> <p3opt> <msg> <ext> <ismap> <islazy> <chain...> | HasPresence usePresence canBeLazy
+//   haspres <label> <syn> <lbl> <oneof> <p3opt> <msg> <ext> <ismap> <islazy> <chain...> | HasPresence usePresence canBeLazy schema-card
 //   bitmap  <flavour> <nwords> <ops...>                                       | query results..., words...
 //   hist    <label> <class> <kind> <ops...>                                   | Has after every op
 //   ohist   <label> <nwords> <fieldflags> <ops...>                            | Has after every op, raw XXX_presence words
@@ -382,11 +382,21 @@ func presHasPresCase(c *Ctx, label string, fd protoreflect.FieldDescriptor, decl
 		}()
 		use, lazy = filedesc.UsePresenceForField(fd)
 	}()
+	// the cardinality class that the message-codec harness (C03, common_msg.go msgFieldToken) puts
+	// into its schema tables: 0 explicit, 1 implicit, 2 required, 3 repeated (4 packed, folded
+	// into 3 here), 5 map -- tied to the same decision table (PresenceCodec.pc_card)
+	card := "?"
+	if parts := strings.Split(msgFieldToken(fd, nil), ":"); len(parts) > 2 {
+		card = parts[2]
+		if card == "4" {
+			card = "3"
+		}
+	}
 	// one C line per distinct (attributes, observation): the model is a function of the attributes
-	key := strings.Join(ins[1:], " ") + "|" + Tok(hp) + Tok(use) + Tok(lazy)
+	key := strings.Join(ins[1:], " ") + "|" + Tok(hp) + Tok(use) + Tok(lazy) + card
 	if !presHasPresSeen[key] {
 		presHasPresSeen[key] = true
-		c.Case("pres", "haspres", ins, []string{Tok(hp), Tok(use), Tok(lazy)})
+		c.Case("pres", "haspres", ins, []string{Tok(hp), Tok(use), Tok(lazy), card})
 	}
 	c.Stat("haspres_syn" + presSynTok(syn))
 
